@@ -88,6 +88,11 @@ class Stall(ConnFamily):
             tail += [rng.choice([["ha", [20, "text/gemini", ["s", "ok"]]], ["ua", [20, "text/gemini", None]], ["l"], ["tick", 300], ["hr"]])]
             tail.append(["tick", rng.choice([1, 240, 2000])])
             rng.shuffle(tail)
+            if rng.random() < 0.25:
+                # the wall clock is stepped (NTP sync, `date -s`) somewhere along the way: deadlines live on the loop's monotonic clock
+                allevs = evs + tail
+                allevs.insert(rng.randint(0, len(allevs)), ["wall", rng.choice([-86400, -3600, -45, -31, 31, 45, 3600])])
+                evs, tail = allevs, []
             yield {"mw": mw, "up": rng.random() < 0.8, "handler": rng.choice([["a"], ["a"], ["s", [20, "text/gemini", ["s", "hi"]]]]), "evs": evs + tail,
                    "req": req.hex(), "need": need}
 
